@@ -411,8 +411,8 @@ func (dir fileSystem) List() (keys []uint, err error) {
 	keys = make([]uint, 0, len(entries))
 	for _, entry := range entries {
 		name := entry.Name()
-		if len(name) != 5 || entry.IsDir() {
-			continue
+		if len(name) != 5 || !entry.Type().IsRegular() {
+			continue // directories, links, pipes
 		}
 		u, err := strconv.ParseUint(name, 16, 17)
 		if err != nil || name != fmt.Sprintf("%05x", u) {
